@@ -154,6 +154,14 @@ func runC04(c *sim.Ctx, t *testing.T) {
 			serr   error
 		)
 		in := toState(st)
+		if n, have := gs.Nodes[st.Node]; have && n.Action == nil && c.Chance(1, 8, "absentbindings") {
+			// a state that was stored without bindings: no bindings are empty bindings (at a
+			// node with an action the script would not even see a _.bindings: not compared)
+			st.Bs = map[string]interface{}{}
+			r = gs.Step(st, pending)
+			in = &core.State{NodeName: st.Node}
+			c.Count("states_without_bindings")
+		}
 		var ctl *core.Control
 		if c.Bool("ctl") {
 			ctl = &core.Control{Limit: 10}
